@@ -9,6 +9,7 @@ CONSTANTS
   Meds = {FALSE}
   AllowClear = FALSE
   DeltaOpts = {TRUE}
+  PayKinds = {"sim"}
   AsCoded = FALSE
   Withhold = FALSE
 VIEW View
